@@ -156,6 +156,28 @@ theorem go_bitLen_is_bit_length (v : Nat) (hv : v < 2 ^ 64) :
     Gen.Hdr.bitLen (v : Int) = ((if v = 0 then 0 else Nat.log2 v + 1 : Nat) : Int) := by
   rw [bitLen_tie, bitLen_eq_blen v hv]; rfl
 
+/-- hdr.go's `RecordValues`, translated (receiver threaded functionally, `error` as `none`), is the model's -/
+theorem go_RecordValues_is_model {h : Hist} (wf : WF h) (v : Nat) (hv : v < 2 ^ 63) (n : Int) :
+    Gen.Hdr.RecordValues (cfgOf h) v n = (recordValues h v n).map cfgOf :=
+  RecordValues_tie wf v hv n
+
+/-- hdr.go's `RecordValues` returns nil for every value up to the highest trackable one, in every state reachable by recording -/
+theorem go_record_succeeds (hv : Valid minV maxV s) (vs : List Int) (v : Nat) (hle : v ≤ maxV) (n : Int) :
+    (Gen.Hdr.RecordValues (cfgOf (recordAll (new minV maxV s) vs)) v n).isSome = true := by
+  have hs := (recordAll_spec vs _ (new_inv minV maxV s)).2.1
+  have wf0 := new_wf hv
+  have f := hs.fields
+  have wf : WF (recordAll (new minV maxV s) vs) := by
+    have hh : (new minV maxV s).highest = (recordAll (new minV maxV s) vs).highest := by
+      have := hs; unfold SameCfg at this; injection this with _ h2
+    have hg : (new minV maxV s).sigfigs = (recordAll (new minV maxV s) vs).sigfigs := by
+      have := hs; unfold SameCfg at this; injection this with _ _ _ h4
+    obtain ⟨w1, w2, w3, w4, w5, w6, w7, w8⟩ := wf0
+    constructor <;> simp only [← f, ← hh, ← hg] <;> assumption
+  rw [RecordValues_tie wf v (lt63 hv hle) n, Option.isSome_map, recordValues_isSome, ← accepts_congr hs]
+  have := index_in_range wf0 (v := v) hle
+  simp [accepts, this.1, this.2]
+
 example : Gen.Hdr.countsIndexFor (cfgOf (new 1 2048 3)) 2048 = 2048 := by decide
 
 end go
